@@ -52,6 +52,7 @@ inductive SOp (C S : Type) where
   | fbTrunc              -- os.WriteFile(.rule_hash_n): O_TRUNC
   | fbPart (k : Nat)     -- ... k bytes written
   | fbFull (s : S)       -- ... all bytes written
+  | clear                -- NOT in the code: drop the stamp (xattr and fallback record) — the proposed fix, see `fixedOrder`
 deriving DecidableEq, Repr
 
 def sstep {C S : Type} (sl : Slice C S) : SOp C S → Slice C S
@@ -68,6 +69,7 @@ def sstep {C S : Type} (sl : Slice C S) : SOp C S → Slice C S
   | .fbTrunc => { sl with fb := some (.trunc 0) }
   | .fbPart k => { sl with fb := some (.trunc k) }
   | .fbFull s => { sl with fb := some (.full s) }
+  | .clear => { sl with gen := sl.gen.map (fun nd => { nd with attr := none }), fb := none }
 
 def srun {C S : Type} (sl : Slice C S) (ops : List (SOp C S)) : Slice C S := ops.foldl sstep sl
 
@@ -168,6 +170,7 @@ def phaseOps (b : Params N C S H) (fs : TState N C S) : String → List (Op N C 
   | "move" => moveOps b fs
   | "stamp" => stampOps b
   | "cache" => cacheOps b
+  | "unstamp" => b.outs.map fun n => .out n .clear      -- only in `fixedOrder`
   | _ => []
 
 /-- The operation list of a build step that runs the command, with the phase order as a parameter
@@ -178,6 +181,14 @@ def planWith (order : List String) (b : Params N C S H) (fs : TState N C S) : Li
 def codedOrder : List String := ["metadata", "move", "stamp", "cache"]
 
 def plan (b : Params N C S H) (fs : TState N C S) : List (Op N C S) := planWith codedOrder b fs
+
+/-- The proposed repair (findings C32): before anything destructive, drop the stamp of every declared output. -/
+def fixedOrder : List String := "unstamp" :: codedOrder
+
+def planFixed (b : Params N C S H) (fs : TState N C S) : List (Op N C S) := planWith fixedOrder b fs
+
+def localOpsFixed (b : Params N C S H) (fs : TState N C S) (n : N) : List (SOp C S) :=
+  [.prep, .run (b.new n), .clear] ++ moveS b (fs.out n) n ++ stampS b n
 
 /-! ### needsBuilding as a function of the filesystem state -/
 variable [DecidableEq S]
